@@ -16,6 +16,7 @@ import (
 
 // Driver is one process running the extracted Coq model.
 type Driver struct {
+	oracle func(s string) (string, bool) // answer to an oracle question: (result, failed)
 	cmd   *exec.Cmd
 	in    io.WriteCloser
 	out   *bufio.Reader
@@ -45,8 +46,32 @@ func unhx(s string) string {
 	return string(b)
 }
 
-func NewDriver() *Driver {
-	cmd := exec.Command(driverPath())
+func specDriverPath() string { return filepath.Join(rootDir, "build/spec/specdriver") }
+
+// the model's oracle is the raw UTS #46 processing; the Spec's oracle is domain-to-ASCII as a whole
+// (the Go wrapper, taken as given by C01)
+func modelOracle(s string) (string, bool) {
+	a, err := url.VerifIdnaRaw(s)
+	oracleLog(s, a, err != nil)
+	return a, err != nil
+}
+
+var specParser = url.NewParser()
+
+func specOracle(s string) (string, bool) {
+	a, err := url.VerifToASCII(specParser, s, false)
+	if err != nil {
+		return "", true
+	}
+	return a, false
+}
+
+func NewDriver() *Driver { return newDriverAt(driverPath(), modelOracle) }
+
+func NewSpecDriver() *Driver { return newDriverAt(specDriverPath(), specOracle) }
+
+func newDriverAt(path string, oracle func(string) (string, bool)) *Driver {
+	cmd := exec.Command(path)
 	cmd.Env = append(os.Environ(), "OCAMLRUNPARAM=l=8G")
 	in, _ := cmd.StdinPipe()
 	out, _ := cmd.StdoutPipe()
@@ -54,7 +79,7 @@ func NewDriver() *Driver {
 	if err := cmd.Start(); err != nil {
 		panic(err)
 	}
-	return &Driver{cmd: cmd, in: in, out: bufio.NewReaderSize(out, 1<<20), known: map[string]bool{}}
+	return &Driver{oracle: oracle, cmd: cmd, in: in, out: bufio.NewReaderSize(out, 1<<20), known: map[string]bool{}}
 }
 
 func (d *Driver) Close() {
@@ -79,13 +104,14 @@ func (d *Driver) Ask(req string) string {
 		}
 		line = strings.TrimRight(line, "\n")
 		if strings.HasPrefix(line, "Q ") {
-			s := unhx(line[2:])
-			a, err := url.VerifIdnaRaw(s)
+			a, failed := d.oracle(unhx(line[2:]))
 			f := "0"
-			if err != nil {
+			if failed {
 				f = "1"
+				if d.oracle != nil && a == "" {
+					a = ""
+				}
 			}
-			oracleLog(s, a, err != nil)
 			io.WriteString(d.in, "A "+f+" "+hx(a)+"\n")
 			continue
 		}
@@ -110,6 +136,35 @@ func (d *Driver) Define(id, line string) {
 // Pool runs jobs on n drivers in parallel.
 type Pool struct {
 	n int
+}
+
+// RunBoth gives each worker a model driver and a Spec driver.
+func (p *Pool) RunBoth(njobs int, job func(d, sd *Driver, i int)) {
+	var wg sync.WaitGroup
+	next := make(chan int, 1024)
+	for w := 0; w < p.n; w++ {
+		wg.Add(1)
+		go func() {
+			defer wg.Done()
+			d, sd := NewDriver(), NewSpecDriver()
+			defer d.Close()
+			defer sd.Close()
+			for i := range next {
+				if d.dead {
+					d = NewDriver()
+				}
+				if sd.dead {
+					sd = NewSpecDriver()
+				}
+				job(d, sd, i)
+			}
+		}()
+	}
+	for i := 0; i < njobs; i++ {
+		next <- i
+	}
+	close(next)
+	wg.Wait()
 }
 
 func (p *Pool) Run(njobs int, job func(d *Driver, i int)) {
